@@ -2447,6 +2447,8 @@ impl<Alloc: BrotliAlloc> BrotliEncoderStateStruct<Alloc> {
             &mut self.num_commands_,
             &mut self.num_literals_,
         );
+        #[cfg(brotli_verif)]
+        verif_stream_hook::book(self, 1, bytes, wrapped_last_processed_pos);
         {
             let max_length: usize = MaxMetablockSize(&mut self.params);
             let max_literals: usize = max_length.wrapping_div(8);
@@ -2483,6 +2485,8 @@ impl<Alloc: BrotliAlloc> BrotliEncoderStateStruct<Alloc> {
         }
         {
             let metablock_size: u32 = self.input_pos_.wrapping_sub(self.last_flush_pos_) as u32;
+            #[cfg(brotli_verif)]
+            verif_stream_hook::book(self, 2, metablock_size, 0);
             //let mut storage_ix: usize = s.last_bytes_bits_ as usize;
             //s.storage_.slice_mut()[0] = (*s).last_bytes_ as u8;
             //s.storage_.slice_mut()[1] = ((*s).last_bytes_ >> 8) as u8;
@@ -3101,6 +3105,9 @@ pub mod verif_stream_hook {
         force_flush: bool,
         next_out_offset: usize,
     ) -> EncodeEvent {
+        if site != 2 {
+            book(s, 0, 0, 0);
+        }
         EncodeEvent {
             site,
             is_last,
@@ -3132,6 +3139,9 @@ pub mod verif_stream_hook {
         ev.last_flush_pos_after = s.last_flush_pos_;
         ev.last_processed_pos_after = s.last_processed_pos_;
         ev.is_last_block_emitted_after = s.is_last_block_emitted_;
+        if ev.site != 2 {
+            book(s, 3, 0, 0);
+        }
         let n = EVENTS.with(|e| {
             let mut v = e.borrow_mut();
             v.push(ev);
@@ -3148,6 +3158,64 @@ pub mod verif_stream_hook {
     /// drain the log of the calling thread
     pub fn take() -> Vec<EncodeEvent> {
         EVENTS.with(|e| core::mem::take(&mut *e.borrow_mut()))
+    }
+
+    /// The command / literal / distance-cache bookkeeping of `encode_data` at four points of one
+    /// invocation: 0 = entry (`before`), 1 = right behind BrotliCreateBackwardReferences (what the
+    /// "emit or keep accumulating" decision looks at; `a` = bytes handed to it, `b` = wrapped
+    /// position), 2 = just before WriteMetaBlockInternal (`a` = meta-block size), 3 = exit (`after`).
+    #[derive(Clone, Copy, Debug, Default)]
+    pub struct BookEvent {
+        pub point: u8,
+        pub a: u32,
+        pub b: u32,
+        pub num_commands: u64,
+        pub num_literals: u64,
+        pub last_insert_len: u64,
+        pub cmd_alloc_size: u64,
+        pub commands_len: u64,
+        pub dist_cache: [i32; 16],
+        pub saved_dist_cache: [i32; 4],
+        pub prev_byte: u8,
+        pub prev_byte2: u8,
+        pub input_pos: u64,
+        pub last_flush_pos: u64,
+        pub last_processed_pos: u64,
+    }
+
+    thread_local! {
+        static BOOK: RefCell<Vec<BookEvent>> = RefCell::new(Vec::new());
+    }
+
+    pub fn book<Alloc: BrotliAlloc>(s: &BrotliEncoderStateStruct<Alloc>, point: u8, a: u32, b: u32) {
+        let ev = BookEvent {
+            point,
+            a,
+            b,
+            num_commands: s.num_commands_ as u64,
+            num_literals: s.num_literals_ as u64,
+            last_insert_len: s.last_insert_len_ as u64,
+            cmd_alloc_size: s.cmd_alloc_size_ as u64,
+            commands_len: s.commands_.slice().len() as u64,
+            dist_cache: s.dist_cache_,
+            saved_dist_cache: s.saved_dist_cache_,
+            prev_byte: s.prev_byte_,
+            prev_byte2: s.prev_byte2_,
+            input_pos: s.input_pos_,
+            last_flush_pos: s.last_flush_pos_,
+            last_processed_pos: s.last_processed_pos_,
+        };
+        BOOK.with(|e| {
+            let mut v = e.borrow_mut();
+            if v.len() < 4 * MAX_EVENTS_PER_CALL {
+                v.push(ev);
+            }
+        });
+    }
+
+    /// drain the bookkeeping log of the calling thread
+    pub fn take_book() -> Vec<BookEvent> {
+        BOOK.with(|e| core::mem::take(&mut *e.borrow_mut()))
     }
 }
 
